@@ -88,6 +88,10 @@ class Ev:
 
     def __init__(self, ev):
         t = ev.split(" ")
+        self.inst_funds = None
+        if t[0] == "INSTF" and len(t) > 2:      # instantiate with funds attached: same request, funds kept aside
+            self.inst_funds = t[1]
+            t = ["INST"] + t[2:]
         self.tok = t
         self.kind = t[0]
         self.sub = None
@@ -397,13 +401,14 @@ class Oracle:
         self.tainted = None      # name of the known class that took the history outside the invariant
         self.started = False     # an accepted INST seen (C01 ledger histories)
         self.seeded = False
+        self.self_sent = False
         self.closed = set()
         self.role_exec = None    # executor / approver lists as the accepted requests set them (independent of storage)
         self.role_appr = None
         self.meta_version = getattr(self, "meta_version", None)
 
     def restricted(self, d):
-        return self.markers.get(d) == "R"
+        return (self.markers.get(d) or "").startswith("R")
 
     def owed(self, asks, bids):
         o = {}
@@ -682,7 +687,11 @@ class Oracle:
                 out.append(("C03", cls, msg))
                 if k == "EXEC" and self.tainted is None and cls == "K_inexact":
                     self.tainted = "K_inexact"
-        clean = self.tainted is None and not self.migration and not self.seeded
+        if k == "EXEC" and b.ok and ev.sender == SELF:
+            # assumption A-self (DESIGN section 5): the contract is never a sender, hence never an owner or approver; what it
+            # pays to itself is invisible in the flows, so the flow-based oracles abstain for the rest of such a history
+            self.self_sent = True
+        clean = self.tainted is None and not self.migration and not self.seeded and not self.self_sent
         # ---- C06: exit probes
         if k == "PEXEC" and ev.sub in ("cancel_ask", "cancel_bid", "expire_ask", "expire_bid") and clean:
             ai, bi = ev.ids()
